@@ -42,12 +42,18 @@ NAMES = sorted(ALL)
 USERS = [None, ("u1", "p1"), ("u2", "p2"), ("u3", "p3")]
 
 
-def personalise(script, user):
+def personalise(script, user, root=""):
+    """Session-specific login lines and payload sizes (so that sizes / contents differ between concurrent sessions)."""
     out = []
+    extra = root.encode() * (2 + sum(root.encode()) % 5)
     for s in script:
         if s.get("line") == "USER anonymous" and user is not None:
             out.append(c("USER " + user[0]))
             out.append(c("PASS " + user[1]))
+        elif s.get("payload") is not None:
+            s = dict(s)
+            s["payload"] = s["payload"] + extra
+            out.append(s)
         else:
             out.append(s)
     return out
@@ -91,7 +97,7 @@ def solo(name, root, user):
         async def go(loop):
             server = make_server()
             await server.start(HOST, PORT)
-            r = ScriptRunner(render(personalise(ALL[name], user), root))
+            r = ScriptRunner(render(personalise(ALL[name], user, root), root))
             await r.run()
             r.close()
             await asyncio.sleep(0.5)
@@ -106,7 +112,7 @@ def solo(name, root, user):
 async def _concurrent(loop, sessions, delays, cut, info):
     server = make_server(delays)
     await server.start(HOST, PORT)
-    runners = [ScriptRunner(render(personalise(ALL[name], user), root)) for name, root, user in sessions]
+    runners = [ScriptRunner(render(personalise(ALL[name], user, root), root)) for name, root, user in sessions]
     overlap = [0]
 
     def count_overlap():
@@ -182,7 +188,8 @@ def check(ctx, case):
                   + ["script_" + s[0] for s in sessions])
 
 
-DELAYS = st.lists(st.tuples(st.sampled_from(["read", "write", "list.next", "_open", "stat", "exists", "rename"]),
+DELAYS = st.lists(st.tuples(st.sampled_from(["read", "write", "list.next", "_open", "stat", "exists", "rename", "is_file", "is_dir", "is_file", "close",
+                                              "seek", "mkdir", "unlink"]),
                             st.sampled_from([0.001, 0.02, 0.3])), max_size=3, unique_by=lambda x: x[0])
 CASE = st.tuples(st.lists(st.integers(0, 50), min_size=2, max_size=3), st.booleans(), st.lists(st.integers(0, 255), max_size=80),
                  DELAYS, st.one_of(st.none(), st.tuples(st.integers(0, 2), st.integers(1, 250))))
